@@ -283,6 +283,20 @@ func headerFields(part, parts int) {
 				}
 			}
 		}
+		// both at once: a track chunk that declares a huge length and, inside it,
+		// an event that declares a huge length too (a few bytes actually present)
+		for _, cl := range []uint32{0x00100000, 0x02000000, 0x7FFFFFFF, 0xFFFFFFFF} {
+			for _, l := range []uint32{0x000FFFFF, 0x00100000, 0x01FFFFFF, 0x02000000, 0x0FFFFFFF} {
+				for _, pre := range [][]byte{{0x00, 0xFF, 0x01}, {0x00, 0xF0}, {0x00, 0xF7}, {0x00, 0xFF, 0x7F}, {0x00, 0xFF, 0x51}} {
+					for _, tail := range []int{0, 3} {
+						b := append(append([]byte{}, pre...), refsmf.VLQ(l)...)
+						b = append(b, make([]byte, tail)...)
+						data := append(hdr(0, 1, 96), 'M', 'T', 'r', 'k', byte(cl>>24), byte(cl>>16), byte(cl>>8), byte(cl))
+						basic(append(data, b...), "declared-length", "declared-length")
+					}
+				}
+			}
+		}
 		// chunk lengths: huge track length, huge alien length
 		for _, typ := range []string{"MTrk", "XXXX"} {
 			for _, l := range []uint32{0x7FFFFFFF, 0xFFFFFFFF, 0x10000000} {
